@@ -168,7 +168,7 @@ def run_real(case):
 
 # ------------------------------------------------------------------------------------------- readers
 
-READERS = ['bytes_kw', 'bytearray_kw', 'memoryview_kw', 'memoryview_wide_kw', 'memoryview_auto', 'array_wide_auto', 'bytesio', 'filename', 'filehandle', 'pathlib', 'array_fromfile', 'array_bytes']
+READERS = ['bytes_kw', 'bytearray_kw', 'memoryview_kw', 'memoryview_wide_kw', 'memoryview_auto', 'array_wide_auto', 'bytesio', 'filename', 'filehandle', 'pathlib', 'array_fromfile', 'array_bytes', 'array_init_handle']
 
 
 @st.composite
@@ -252,6 +252,11 @@ def run_read(case):
                 with open(p, 'rb') as fh:
                     a2.fromfile(fh)
                 require(a2.data.bin == src[:(total // w) * w], 'Array.fromfile(f) without a count must read every whole item', w=w)
+            elif reader == 'array_init_handle':
+                with open(p, 'rb') as fh:
+                    a = attempt(bs.Array, dt, fh)
+                    require(not is_raised(a), 'Array(dtype, open file) raised', got=a)
+                require(a.data.bin == src[:(total // w) * w] and len(a) == total // w, 'Array(dtype, open file) must hold every whole item of the file', got=len(a.data), expected=(total // w) * w, w=w)
             else:
                 a = bs.Array(dt, b)
                 require(a.data.bin == src and len(a) == total // w and a.trailing_bits.bin == src[(total // w) * w:], 'Array(dtype, bytes) does not hold the source bits', w=w)
